@@ -375,6 +375,17 @@ pub fn vp8_read_coefficients(
     crate::vp8::verif_read_coefficients(data, probs, plane, calls)
 }
 
+/// `Vp8Decoder::read_quantization_indices` with the segment header state set directly
+/// (see `vp8::verif_quant_factors`): ydc, yac, y2dc, y2ac, uvdc, uvac of the four segments.
+pub fn vp8_quant_factors(
+    data: &[u8],
+    segments_enabled: bool,
+    delta_values: bool,
+    levels: [i8; 4],
+) -> Result<[[i16; 6]; 4], DecodingError> {
+    crate::vp8::verif_quant_factors(data, segments_enabled, delta_values, levels)
+}
+
 /// The crate's default token probabilities of one plane, flattened (band, context, node).
 pub fn default_coeff_probs(plane: usize) -> Vec<u8> {
     crate::vp8::verif_default_coeff_probs(plane)
